@@ -463,7 +463,7 @@ func (p *projSpec) inputItems(t *targetSpec) map[string]string {
 	for i, r := range t.Refs {
 		shape = append(shape, r.Kind+":"+r.Name)
 		switch r.Kind {
-		case "lit", "default", "freevar", "cacheonce", "structfn", "kwonly", "fnkeys", "dag":
+		case "lit", "default", "freevar", "cacheonce", "structfn", "kwonly", "fnkeys", "dag", "manynested":
 			out[fmt.Sprintf("ref|%s|%d", t.label(), i)] = r.Val.render()
 		case "twins", "lateglobal":
 			out[fmt.Sprintf("ref|%s|%d", t.label(), i)] = r.Val.render()
